@@ -101,3 +101,4 @@ func nextL2Seq(b *henv.L2) uint64 {
 
 func TestC07GasSweep(t *testing.T) { hookGasSweep(t, "C07", 1); hookGasSweep(t, "C07", 3) }
 func TestC09GasSweep(t *testing.T) { hookGasSweep(t, "C09", 1); hookGasSweep(t, "C09", 2) }
+func TestC08GasSweep(t *testing.T) { hookGasSweep(t, "C08", 1) }
